@@ -6,6 +6,7 @@
 package c05
 
 import (
+	"database/sql"
 	"encoding/json"
 	"fmt"
 	"strings"
@@ -13,11 +14,16 @@ import (
 	"verif/sim/core"
 	"verif/sim/env"
 	"verif/sim/ops"
+	"verif/sim/simdrv"
+	"verif/sim/simpool"
+
+	"gorm.io/gorm"
 )
 
 type Case struct {
 	Op       ops.WOp     `json:"op"`
 	Prepare  bool        `json:"prepare_stmt"`
+	PoolShim bool        `json:"pool_shim"`      // gorm is opened on a ConnPool wrapper (ConnPoolBeginner path) instead of *sql.DB
 	MaxSites int         `json:"max_sites"`      // 0 = every site
 	Pick     int64       `json:"pick_seed"`      // seeds the site sample
 	Only     []ops.Fault `json:"only,omitempty"` // replay/shrink: run exactly these faults
@@ -39,7 +45,7 @@ func (Prop) Assumptions() []string {
 }
 
 func (Prop) Gen(r *core.Rand, tier string) interface{} {
-	c := &Case{Op: ops.GenWOp(r, ops.WriteKinds), Prepare: r.Chance(30), Pick: r.Int63()}
+	c := &Case{Op: ops.GenWOp(r, ops.WriteKinds), Prepare: r.Chance(30), PoolShim: r.Chance(30), Pick: r.Int63()}
 	if tier != "thorough" {
 		c.MaxSites = 25
 	}
@@ -69,11 +75,22 @@ func (Prop) Shrink(ci interface{}) []interface{} {
 		v.MaxSites = 0
 		out = append(out, &v)
 	}
+	if c.PoolShim {
+		v := *c
+		v.PoolShim = false
+		v.Only = nil
+		v.MaxSites = 0
+		out = append(out, &v)
+	}
 	return out
 }
 
 func (p Prop) exec(c *Case, f *ops.Fault) (*ops.SingleRun, error) {
-	return ops.RunSingle(env.Options{PrepareStmt: c.Prepare}, f, nil, func(e *env.Env) ops.Result {
+	o := env.Options{PrepareStmt: c.Prepare}
+	if c.PoolShim {
+		o.WrapPool = func(db *sql.DB, drv *simdrv.Sim) gorm.ConnPool { return simpool.New(db, drv) }
+	}
+	return ops.RunSingle(o, f, nil, func(e *env.Env) ops.Result {
 		return c.Op.Exec(e.DB)
 	})
 }
